@@ -501,4 +501,206 @@ theorem raire_comparison_full_wrong_winner_risk_limit {β D : Type} [Raire.DiffO
 
 end Risk
 
+/-! ### non-vacuity
+
+Candidates 0, 1, 2; card comparison under style-based sampling; five cards.  The machine reported the rankings
+(0,1), (1,0), (1,0), (2,1) and one `make_phantoms` phantom CVR (the contest listed, no votes, not pooled): candidate 2
+is eliminated first and 1 beats 0 by 3 to 1 — reported winner 1.  On these CVRs the modelled RAIRE search returns
+NEB(1, 2) (2 v 1) and NEN(1, 0 | 2 eliminated) (3 v 1); their reported assorter values are 1/2, 1, 1, 0, 1/2 (margin 1/5,
+test bound 10/9) and 0, 1, 1, 1, 1/2 (margin 2/5, test bound 5/4).
+The manual records: (0,1); (0,1) (the CVR said (1,0)); a record that does not list the contest; (2,1); the phantom's card
+cannot be found.  Found ballots (0,1), (0,1), (2,1): candidate 1 has no first preference and is eliminated first, then 2,
+and 0 wins — the reported winner is wrong, also if the unfindable card "really" holds (0,2).  Two records are scored 0.
+Data 5/9, 5/18, 0, 5/9, 5/18 and 5/8, 0, 0, 5/8, 5/16 (means 1/3 and 5/16). -/
+
+section example_
+open Shangrla.NM
+
+/-- a card of the example: its manual record; the votes dict and the phantom flag of its CVR -/
+abbrev CardV := IrvMvr String Nat × (Votes String Nat × Bool)
+
+/-- a found manual record / a CVR holding the ranking `r` -/
+def mvrV (r : List Nat) : IrvMvr String Nat := { ballot := cardI r }
+def cvrV (r : List Nat) : Votes String Nat × Bool := (fromVote (auditEnc r) "c", false)
+
+def cardsV : List CardV :=
+  [(mvrV [0, 1], cvrV [0, 1]), (mvrV [0, 1], cvrV [1, 0]),
+   ({ ballot := ([("other", auditEnc [7])], [("other", genEnc [7])]) }, cvrV [1, 0]),
+   (mvrV [2, 1], cvrV [2, 1]),
+   ({ ballot := ([], []), phantom := true }, ([("c", [])], true))]
+
+/-- the CVR of a card as the overstatement model reads it (no pools); the `a` field is set per assertion (`cvFor`) -/
+def cvF (x : CardV) : Cvr :=
+  { hasContest := hasContest x.2.1 "c", phantom := x.2.2, pool := false, tallyPool := none, a := 0, sampleNum := 0 }
+
+/-- the reported assorter value of a card for the assertion `(k, w, l, E)`: the audit-side assorter
+(`make_assertions_from_json`) applied to the CVR's votes -/
+def caK (k : Raire.Kind) (w l : Nat) (E : List Nat) (x : CardV) : ℚ :=
+  irvAssort "c" [0, 1, 2] k w l E (x.2.1, [])
+def caV (r : Raire.Assertion Nat Nat) : CardV → ℚ := caK r.kind r.winner r.loser r.eliminated
+
+/-- what the generator is given: the reported rankings; the phantom lists the contest with no ranking -/
+def cvrsGenV : List (Option (Raire.Ballot Nat)) :=
+  [C04.balEx [0, 1], C04.balEx [1, 0], C04.balEx [1, 0], C04.balEx [2, 1], some []]
+def CV : Raire.Contest Nat := { candidates := [0, 1, 2], totBallots := 5, outcome := [] }
+
+def cfgVb : Cfg := { N := some 5, u := 10/9, t := 1/2, randomOrder := true, kw := { eta := some 1 } }
+def cfgVn : Cfg := { N := some 5, u := 5/4, t := 1/2, randomOrder := true, kw := { eta := some 1 } }
+def dataV : String → String → CardV → Option ℚ := fun _ name x =>
+  if name = "neb" then
+    cardDatum .cardComparison true (XR.fin (1/5)) 1 none
+      (mvrOfIRV (irvAssort "c" [0, 1, 2] .neb 1 2 []) "c" x.1, cvFor cvF (caK .neb 1 2 []) x)
+  else
+    cardDatum .cardComparison true (XR.fin (2/5)) 1 none
+      (mvrOfIRV (irvAssort "c" [0, 1, 2] .nen 1 0 [2]) "c" x.1, cvFor cvF (caK .nen 1 0 [2]) x)
+def TV : String → String → SeqTest := fun _ name =>
+  if name = "neb" then NM.run sqrtRat cfgVb (.alpha .fixedAlt) else NM.run sqrtRat cfgVn (.alpha .fixedAlt)
+def cV : Contest := { id := "c", riskLimit := 9/10, assertions := [{ name := "neb" }, { name := "nen" }] }
+def sV : State := [cV]
+
+theorem cfgVb_documented : C01.DocumentedFinite sqrtRat cfgVb (.alpha .fixedAlt) :=
+  ⟨by norm_num [cfgVb], ⟨by norm_num [cfgVb, eps], by norm_num [cfgVb, eps], by norm_num [cfgVb]⟩, trivial⟩
+theorem cfgVn_documented : C01.DocumentedFinite sqrtRat cfgVn (.alpha .fixedAlt) :=
+  ⟨by norm_num [cfgVn], ⟨by norm_num [cfgVn, eps], by norm_num [cfgVn, eps], by norm_num [cfgVn]⟩, trivial⟩
+
+/-- what the CVRs say: reported assorter values, margins and test bounds of the two assertions -/
+example : cardsV.map (caK .neb 1 2 []) = [1/2, 1, 1, 0, 1/2] ∧ cardsV.map (caK .nen 1 0 [2]) = [0, 1, 1, 1, 1/2] ∧
+    setMarginFromCvrs 1 true .cardComparison 1 (cardsV.map (cvFor cvF (caK .neb 1 2 [])))
+      = .ok (XR.fin (1/5), XR.fin (10/9)) ∧
+    setMarginFromCvrs 1 true .cardComparison 1 (cardsV.map (cvFor cvF (caK .nen 1 0 [2])))
+      = .ok (XR.fin (2/5), XR.fin (5/4)) := by decide +kernel
+
+/-- the data are read off the two models: `mvrOfIRV` of the manual record, then `mvrs_to_data` -/
+example : cardsV.map (dataV "c" "neb") = [some (5/9), some (5/18), some 0, some (5/9), some (5/18)] ∧
+    cardsV.map (dataV "c" "nen") = [some (5/8), some 0, some 0, some (5/8), some (5/16)] := by
+  decide +kernel
+
+/-- the found ballots, in the form `validIRV` takes them; two records are scored 0 (a record lacking the contest, an
+unfindable card) -/
+example : trueBallots "c" (foundRecs true "c" Prod.fst cvF cardsV)
+      = [some [(0, 0), (1, 1)], some [(0, 0), (1, 1)], some [(2, 0), (1, 1)]] ∧
+    lostRecs true "c" Prod.fst cvF cardsV = 2 := by decide +kernel
+
+theorem foundV_aligned : ∀ p ∈ foundRecs true "c" Prod.fst cvF cardsV, C14.Aligned "c" [0, 1, 2] p := by
+  intro p hp
+  have h : foundRecs true "c" Prod.fst cvF cardsV = [cardI [0, 1], cardI [0, 1], cardI [2, 1]] := rfl
+  rw [h] at hp
+  simp only [List.mem_cons, List.not_mem_nil, or_false] at hp
+  rcases hp with rfl | rfl | rfl <;> exact aligned_card _ _ _ (by decide) (by decide)
+
+/-- `[1, 2, 0]` is a possible IRV count of the three found ballots together with the ballot (0,2) for the unfindable
+card (tallies 0 ≤ 1, 0 ≤ 3; then 1 ≤ 3): candidate 0 wins -/
+theorem validIRV_V :
+    validIRV ((trueBallots "c" (foundRecs true "c" Prod.fst cvF cardsV)).filterMap id ++ [[(0, 0), (2, 1)]])
+      [1, 2, 0] := by
+  intro pre x post h y hy
+  rcases pre with _ | ⟨p1, _ | ⟨p2, _ | ⟨p3, pre⟩⟩⟩
+  · simp only [List.nil_append, List.cons.injEq] at h
+    obtain ⟨rfl, rfl⟩ := h
+    simp only [List.mem_cons, List.not_mem_nil, or_false] at hy
+    rcases hy with rfl | rfl <;> decide +kernel
+  · simp only [List.cons_append, List.nil_append, List.cons.injEq] at h
+    obtain ⟨rfl, rfl, rfl⟩ := h
+    simp only [List.mem_cons, List.not_mem_nil, or_false] at hy
+    subst hy
+    decide +kernel
+  · simp only [List.cons_append, List.nil_append, List.cons.injEq] at h
+    obtain ⟨rfl, rfl, rfl, rfl⟩ := h
+    cases hy
+  · simp at h
+
+/-- ... and of the found ballots alone -/
+theorem validIRV_V_found :
+    validIRV ((trueBallots "c" (foundRecs true "c" Prod.fst cvF cardsV)).filterMap id) [1, 2, 0] := by
+  intro pre x post h y hy
+  rcases pre with _ | ⟨p1, _ | ⟨p2, _ | ⟨p3, pre⟩⟩⟩
+  · simp only [List.nil_append, List.cons.injEq] at h
+    obtain ⟨rfl, rfl⟩ := h
+    simp only [List.mem_cons, List.not_mem_nil, or_false] at hy
+    rcases hy with rfl | rfl <;> decide +kernel
+  · simp only [List.cons_append, List.nil_append, List.cons.injEq] at h
+    obtain ⟨rfl, rfl, rfl⟩ := h
+    simp only [List.mem_cons, List.not_mem_nil, or_false] at hy
+    subst hy
+    decide +kernel
+  · simp only [List.cons_append, List.nil_append, List.cons.injEq] at h
+    obtain ⟨rfl, rfl, rfl, rfl⟩ := h
+    cases hy
+  · simp at h
+
+/-- both assertions are false on the manual records in the sense of `irv_comparison_null_iff` (tallies over the found
+ballots 0 v 1 and 1 v 2, two records scored 0) — and even in the plain sense -/
+example :
+    tallies (trueBallots "c" (foundRecs true "c" Prod.fst cvF cardsV)) .neb 1 2 [] = (0, 1) ∧
+    tallies (trueBallots "c" (foundRecs true "c" Prod.fst cvF cardsV)) .nen 1 0 [2] = (1, 2) := by decide +kernel
+
+/-- every hypothesis of `AuditedComparisonFull` holds for the set the modelled RAIRE search returns on the reported
+CVRs -/
+theorem auditedV (as : List (Raire.Assertion Nat Nat))
+    (h : Raire.computeRaireAssertions C04.asnEx CV cvrsGenV 1 100 = Raire.Res.ok as) :
+    as ≠ [] ∧ AuditedComparisonFull dataV TV cV "c" [0, 1, 2] .cardComparison true Prod.fst cvF caV cardsV as := by
+  have hs : C04.summary (Raire.computeRaireAssertions C04.asnEx CV cvrsGenV 1 100) =
+      some [(true, 1, 2, [], 2, 1, 5000), (false, 1, 0, [2], 3, 1, 2500)] := by rfl
+  rw [h] at hs
+  simp only [C04.summary, Option.some.injEq, List.map_eq_cons_iff, List.map_eq_nil_iff, Prod.mk.injEq] at hs
+  obtain ⟨a1, l1, rfl, ⟨k1, w1, lo1, e1, -⟩, a2, l2, rfl, ⟨k2, w2, lo2, e2, -⟩, rfl⟩ := hs
+  have hk1 : a1.kind = .neb := by simpa using k1
+  have hk2 : a2.kind = .nen := by
+    cases hk : a2.kind
+    · rw [hk] at k2; cases k2
+    · rfl
+  refine ⟨by simp, ?_⟩
+  intro r hr
+  simp only [List.mem_cons, List.not_mem_nil, or_false] at hr
+  rcases hr with rfl | rfl
+  · unfold caV
+    rw [hk1, w1, lo1, e1]
+    exact ⟨{ name := "neb" }, by simp [cV], none, XR.fin (1/5), XR.fin (10/9), MeansFrom.unset,
+      fun x _ => irvAssort_range _ _ _ _ _ _ _, by decide +kernel, by decide +kernel, rfl,
+      sqrtRat, cfgVb, .alpha .fixedAlt, by decide +kernel, rfl, rfl, rfl, cfgVb_documented⟩
+  · unfold caV
+    rw [hk2, w2, lo2, e2]
+    exact ⟨{ name := "nen" }, by simp [cV], none, XR.fin (2/5), XR.fin (5/4), MeansFrom.unset,
+      fun x _ => irvAssort_range _ _ _ _ _ _ _, by decide +kernel, by decide +kernel, rfl,
+      sqrtRat, cfgVn, .alpha .fixedAlt, by decide +kernel, rfl, rfl, rfl, cfgVn_documented⟩
+
+/-- capstone: every hypothesis of `raire_comparison_full_wrong_winner_risk_limit` is satisfiable — the RAIRE output
+for the reported CVRs (non-empty), both returned assertions audited on the literal model, aligned found ballots, a
+ballot for the unfindable card (`extra`, at most `lostRecs` = 2 of them), and an IRV count of found ballots + `extra`
+ending in candidate 0 rather than the reported winner 1 -/
+example : hitG (auditCompleteOpt dataV TV sV) 5 cardsV [] ≤ 9/10 := by
+  cases h : Raire.computeRaireAssertions C04.asnEx CV cvrsGenV 1 100 with
+  | fuel =>
+    have hs : C04.summary (Raire.computeRaireAssertions C04.asnEx CV cvrsGenV 1 100) ≠ none := by
+      intro h0; cases h0
+    rw [h] at hs; exact absurd rfl hs
+  | err e =>
+    have hs : C04.summary (Raire.computeRaireAssertions C04.asnEx CV cvrsGenV 1 100) ≠ none := by
+      intro h0; cases h0
+    rw [h] at hs; exact absurd rfl hs
+  | ok as =>
+    obtain ⟨hne, haud⟩ := auditedV as h
+    exact raire_comparison_full_wrong_winner_risk_limit dataV TV sV cV (List.mem_singleton.2 rfl) (by norm_num [cV])
+      (by norm_num [cV]) C04.asnEx CV cvrsGenV 1 (by decide) (by decide) 100 as h hne
+      "c" .cardComparison (Or.inl rfl) true Prod.fst cvF caV cardsV (by decide +kernel) haud foundV_aligned
+      [[(0, 0), (2, 1)]] (by intro b hb; rw [List.mem_singleton.1 hb]; exact ⟨by decide, by decide⟩)
+      (by decide +kernel) [1, 2, 0] ⟨by decide, [1, 2], 0, rfl, by decide⟩ validIRV_V
+
+/-- the plain form (`extra = []`) on a `Sufficient` set given directly -/
+example (S : List (Raire.Assertion Nat Nat)) (hS : Sufficient [0, 1, 2] 1 S)
+    (hSc : ∀ r ∈ S, r.kind = .nen → r.winner ∈ [0, 1, 2] ∧ r.loser ∈ [0, 1, 2])
+    (haud : AuditedComparisonFull dataV TV cV "c" [0, 1, 2] .cardComparison true Prod.fst cvF caV cardsV S) :
+    hitG (auditCompleteOpt dataV TV sV) 5 cardsV [] ≤ 9/10 :=
+  irv_comparison_full_wrong_winner_risk_limit_found dataV TV sV cV (List.mem_singleton.2 rfl) (by norm_num [cV])
+    (by norm_num [cV]) "c" [0, 1, 2] (by decide) 1 S hS hSc .cardComparison (Or.inl rfl) true Prod.fst cvF caV cardsV
+    (by decide +kernel) haud foundV_aligned [1, 2, 0] ⟨by decide, [1, 2], 0, rfl, by decide⟩ validIRV_V_found
+
+/-- ... and the bounded event really happens: although on the manual records candidate 0 beats the reported winner 1,
+over the 120 orders of the five cards the audit is reported complete with probability 1/10 (kernel-computed) — below
+the bound 9/10 -/
+theorem example_irv_comparison_full_exact : hitG (auditCompleteOpt dataV TV sV) 5 cardsV [] = 1/10 := by
+  decide +kernel
+
+end example_
+
 end Shangrla.RiskLimit
